@@ -16,7 +16,7 @@ RULE = ("type-directed random draft-4 schemas (all supported keywords, nested to
 
 
 def correspond(ctx, C):
-    n = 3000 if ctx.tier == "quick" else 300000
+    n = 12000 if ctx.tier == "quick" else 300000
     if ctx.search:
         n *= 3
     rows = C.run_family("schema", n, ctx.seed, ctx.tier, replay=S.replay_file(ctx, C))
@@ -40,7 +40,12 @@ def correspond(ctx, C):
         if ob["valid"] != os_["valid"]:
             viol.append((case, {"what": "one-shot entry point and validator object disagree", "object": ob["valid"], "oneshot": os_["valid"]}))
             continue
-        if ob["valid"] != m["spec"]:
+        if ob["valid"] != m["spec"] and ob["valid"] != im["valid"]:
+            # the code contradicts the specification and the model of the code as it is does not reproduce it:
+            # no listed finding can explain this case
+            viol.append((case, {"what": "verdict differs from draft-4 semantics and from the model of the code as it is",
+                                "go_valid": ob["valid"], "spec_valid": m["spec"], "impl_valid": im["valid"]}))
+        elif ob["valid"] != m["spec"]:
             sw = [s for s in m["explain"] if s in known]
             if not sw and not m["explain"] and m["rep"]["valid"] == m["spec"] and not m["rep"]["panic"] and set(m.get("active", S.C01_SWITCHES)) <= set(known):
                 sw = ["(several known switches together)"]
@@ -54,7 +59,9 @@ def correspond(ctx, C):
     out_viol = []
     def still_spec(row):
         ob = row["go"].get("object", {})
-        return "valid" in ob and ob["valid"] != row["m"]["spec"] and not [s for s in row["m"]["explain"] if s in known]
+        if "valid" not in ob or ob["valid"] == row["m"]["spec"]:
+            return False
+        return ob["valid"] != row["m"]["impl"]["valid"] or not [s for s in row["m"]["explain"] if s in known]
     def still_tie(row):
         ob = row["go"].get("object", {})
         return ("panic" in ob) != row["m"]["impl"]["panic"] or ("valid" in ob and ob["valid"] != row["m"]["impl"]["valid"])
